@@ -75,16 +75,46 @@ type Term struct {
 // TermStore hash-conses terms of one run.
 type TermStore struct {
 	tab    map[string]*Term
+	ktab   map[termKey]*Term
 	nextID int
 	vars   []*Term
 	ufs    map[string]string // name -> declaration
 }
 
 func NewTermStore() *TermStore {
-	return &TermStore{tab: map[string]*Term{}, ufs: map[string]string{}}
+	return &TermStore{tab: map[string]*Term{}, ktab: map[termKey]*Term{}, ufs: map[string]string{}}
+}
+
+type termKey struct {
+	op         Op
+	w          int
+	val        uint64
+	aux        int
+	name       string
+	n          int
+	a0, a1, a2 int
 }
 
 func (s *TermStore) mk(op Op, w int, val uint64, aux int, name string, args ...*Term) *Term {
+	if len(args) <= 3 {
+		k := termKey{op: op, w: w, val: val, aux: aux, name: name, n: len(args), a0: -1, a1: -1, a2: -1}
+		if len(args) > 0 {
+			k.a0 = args[0].id
+		}
+		if len(args) > 1 {
+			k.a1 = args[1].id
+		}
+		if len(args) > 2 {
+			k.a2 = args[2].id
+		}
+		if t, ok := s.ktab[k]; ok {
+			return t
+		}
+		t := &Term{Op: op, W: w, Val: val, Aux: aux, Name: name, Args: args, id: s.nextID}
+		s.nextID++
+		s.ktab[k] = t
+		return t
+	}
 	var sb strings.Builder
 	fmt.Fprintf(&sb, "%d|%d|%d|%d|%s", op, w, val, aux, name)
 	for _, a := range args {
@@ -737,9 +767,19 @@ func (t *Term) body() string {
 
 // ---- concrete evaluation under a model -----------------------------------
 
-// Eval evaluates t under an assignment of variables; ok=false if the term
-// contains an uninterpreted function or an unassigned variable.
+// evalDefault is Eval with unassigned variables read as 0 (they are
+// unconstrained so far, so any value extends the model).
+func (t *Term) evalDefault(model map[string]uint64, memo map[*Term]uint64) (uint64, bool) {
+	return t.eval(model, memo, true)
+}
+
 func (t *Term) Eval(model map[string]uint64, memo map[*Term]uint64) (uint64, bool) {
+	return t.eval(model, memo, false)
+}
+
+// eval evaluates t under an assignment of variables; ok=false if the term
+// contains an uninterpreted function or an unassigned variable.
+func (t *Term) eval(model map[string]uint64, memo map[*Term]uint64, dflt bool) (uint64, bool) {
 	if v, ok := memo[t]; ok {
 		return v, true
 	}
@@ -750,6 +790,9 @@ func (t *Term) Eval(model map[string]uint64, memo map[*Term]uint64) (uint64, boo
 	case OpVar:
 		v, ok := model[t.Name]
 		if !ok {
+			if dflt {
+				return 0, true
+			}
 			return 0, false
 		}
 		return v & mask(t.W), true
@@ -759,7 +802,7 @@ func (t *Term) Eval(model map[string]uint64, memo map[*Term]uint64) (uint64, boo
 	av := make([]uint64, len(t.Args))
 	for i, a := range t.Args {
 		// lazy evaluation for ite/and/or is not needed: total functions
-		v, ok := a.Eval(model, memo)
+		v, ok := a.eval(model, memo, dflt)
 		if !ok {
 			return 0, false
 		}
